@@ -162,7 +162,7 @@ class GetRTL2GiveCL( Component ):
     @update
     def up_entry():
       if s.get.en:
-        s.entry = clone_deepcopy( s.get.msg )
+        s.entry = clone_deepcopy( s.get.ret )
 
     s.add_constraints(
       U( up_get_rtl ) < M( s.give     ),
@@ -233,16 +233,15 @@ class RecvRTL2GiveFL( Component ):
 
     @update_once
     def up_recv_rtl_rdy():
-      s.recv.rdy @= s.entry is not None
+      s.recv.rdy @= s.entry is None
 
     @update_once
     def up_recv_cl():
-      s.entry = None
       if s.recv.en:
         assert s.entry is None
-        s.entry = deepcopy( s.recv.msg )
+        s.entry = clone_deepcopy( s.recv.msg )
 
     s.add_constraints( U( up_recv_cl ) < M(s.give) ) # bypass
 
   def line_trace( s ):
-    return "{}(){}".format( s.recv, s.send )
+    return "{}(){}".format( s.recv, s.give )
